@@ -169,6 +169,11 @@ func (x *X) assume(guard, fact *Term, why string) {
 		// a side fact about a term that lives under a quantifier: cannot be stated globally
 		return
 	}
+	if fact.Op == "=>" && (fact.Args[1].Op == "and" || fact.Args[1].Op == "=>") {
+		// (a ==> b && c) as (a ==> b), (a ==> c)
+		x.assume(x.B.And(guard, fact.Args[0]), fact.Args[1], why)
+		return
+	}
 	if fact.Op == "and" {
 		// conjuncts separately: the quantifier-free relaxation then drops only the quantified ones
 		for _, c := range fact.Args {
